@@ -27,6 +27,13 @@ fn main() {
             let text = std::fs::read_to_string(f).unwrap_or_default();
             let ok = vcheck::parse(&text).is_some();
             println!("{f}: parser-accepted={ok}");
+            if std::env::var("VCHECK_PROBE_TOKENS").is_ok() {
+                if let Some(toks) = vcheck::gen::layout::tokenize(&text) {
+                    for t in toks {
+                        println!("  token {:?}{}", t.text, if t.in_pragma { " (in pragma)" } else { "" });
+                    }
+                }
+            }
             if ok {
                 for p in vcheck::patterns::all() {
                     match catch(|| p.analyze(&text, 0)) {
